@@ -174,6 +174,27 @@ func toHCLSchema(s ref.Schema) *hcl.BodySchema {
 	return out
 }
 
+// sharedSchemas builds the schemas of the parts as a caller does who splits one list: the
+// parts' Attributes and Blocks are consecutive sub-slices of one backing array each (so
+// every part but the last has spare capacity that belongs to the next part).
+func sharedSchemas(parts []ref.Schema) (schemas []*hcl.BodySchema, snapshot func() string) {
+	var allA []hcl.AttributeSchema
+	var allB []hcl.BlockHeaderSchema
+	for _, p := range parts {
+		one := toHCLSchema(p)
+		allA = append(allA, one.Attributes...)
+		allB = append(allB, one.Blocks...)
+	}
+	offA, offB := 0, 0
+	for _, p := range parts {
+		schemas = append(schemas, &hcl.BodySchema{Attributes: allA[offA : offA+len(p.Attrs)], Blocks: allB[offB : offB+len(p.Blocks)]})
+		offA += len(p.Attrs)
+		offB += len(p.Blocks)
+	}
+	snapshot = func() string { return fmt.Sprintf("%v|%v", allA, allB) }
+	return schemas, snapshot
+}
+
 // splitSchema partitions a schema into k disjoint parts.
 func splitSchema(t *rapid.T, s ref.Schema, k int) []ref.Schema {
 	parts := make([]ref.Schema, k)
@@ -459,17 +480,19 @@ func lawsOn(c *hx.Case, im implBody, tree *ast.Body, S ref.Schema, parts []ref.S
 	chainErr, mChainErr := false, false
 	gotAttrs := map[string]*hcl.Attribute{}
 	var gotBlocks hcl.Blocks
+	shared, sharedSnapshot := sharedSchemas(parts)
+	sharedBefore := sharedSnapshot()
 	for i, p := range parts {
 		var pc *hcl.BodyContent
 		var pd hcl.Diagnostics
 		var mc ref.Content
 		if i < len(parts)-1 {
 			var next hcl.Body
-			c.Guard(im.name+" chain PartialContent", func() { pc, next, pd = cur.PartialContent(toHCLSchema(p)) })
+			c.Guard(im.name+" chain PartialContent", func() { pc, next, pd = cur.PartialContent(shared[i]) })
 			cur = next
 			mc, view = view.Partial(p)
 		} else {
-			c.Guard(im.name+" chain Content", func() { pc, pd = cur.Content(toHCLSchema(p)) })
+			c.Guard(im.name+" chain Content", func() { pc, pd = cur.Content(shared[i]) })
 			mc = view.Exhaustive(p)
 		}
 		chainErr = chainErr || pd.HasErrors()
@@ -482,6 +505,9 @@ func lawsOn(c *hx.Case, im implBody, tree *ast.Body, S ref.Schema, parts []ref.S
 			acc.Attrs[n] = e
 		}
 		acc.Blocks = append(acc.Blocks, mc.Blocks...)
+	}
+	if after := sharedSnapshot(); after != sharedBefore {
+		c.Failf("schema-modified", "%s: processing modified the caller's schema: %s became %s", im.name, sharedBefore, after)
 	}
 	if chainErr != mExh.Err || mChainErr != mExh.Err {
 		c.Failf("L3-error-flag", "%s: chained processing error=%v (model chain %v), one-step union schema error=%v", im.name, chainErr, mChainErr, mExh.Err)
